@@ -1936,6 +1936,12 @@ func canonicalCall(callee *ssa.Function, args []*Term) (string, []*Term) {
 		zero := func() *Term { return constTerm(constant.MakeInt64(0), types.Typ[types.Int]) }
 		return "os.OpenFile", []*Term{args[0], zero(), zero()}
 	}
+	// templateConfig.ReadFile(name) on an embed.FS is fs.ReadFile(templateConfig, name)
+	if callee.Name() == "ReadFile" && callee.Signature.Recv() != nil && len(args) == 2 {
+		if n, ok := deref(callee.Signature.Recv().Type()).(*types.Named); ok && n.Obj().Pkg() != nil && n.Obj().Pkg().Path() == "embed" && n.Obj().Name() == "FS" {
+			return "io/fs.ReadFile", args
+		}
+	}
 	return callee.String(), args
 }
 
